@@ -213,9 +213,8 @@ func newWorker(id int, prog *ssa.Program, hpkg, zpkg *ssa.Package) (w *Worker, e
 		w.crossAll = *flagCrossAll
 	}
 	// package initialisers, concretely
-	w.ex = newExplorer("init", 1, time.Now().Add(time.Hour))
-	w.path = &Path{w: w, pr: &printer{defined: map[*Term]string{}}}
-	w.solver.send("(push 1)\n")
+	w.ex = newExplorer("init", id+1, 1, time.Now().Add(time.Hour))
+	w.path = w.newPath(nil)
 	func() {
 		defer func() {
 			if r := recover(); r != nil {
@@ -228,7 +227,6 @@ func newWorker(id int, prog *ssa.Program, hpkg, zpkg *ssa.Package) (w *Worker, e
 			}
 		}
 	}()
-	w.solver.send("(pop 1)\n")
 	w.funcs = map[string]bool{}
 	w.stubs = map[string]int{}
 	w.maxSteps = *flagMaxSteps
@@ -253,7 +251,7 @@ func describePanic(r interface{}) string {
 
 func runHarness(workers []*Worker, name string, fn *ssa.Function) HarnessResult {
 	t0 := time.Now()
-	ex := newExplorer(name, *flagMaxPaths, t0.Add(time.Duration(*flagDeadline)*time.Second))
+	ex := newExplorer(name, len(workers), *flagMaxPaths, t0.Add(time.Duration(*flagDeadline)*time.Second))
 	var wg sync.WaitGroup
 	for _, w := range workers {
 		w.ex = ex
@@ -261,12 +259,13 @@ func runHarness(workers []*Worker, name string, fn *ssa.Function) HarnessResult 
 		w.stubs = map[string]int{}
 		w.branches = 0
 		w.unknownBranches = 0
+		w.resetCtx()
 		wg.Add(1)
 		go func(w *Worker) {
 			defer wg.Done()
 			q0, s0, u0, k0, e0 := w.solver.queries, w.solver.nSat, w.solver.nUnsat, w.solver.nUnk, w.solver.elapsed
 			for {
-				it, ok := ex.take()
+				it, ok := ex.take(w.id)
 				if !ok {
 					break
 				}
@@ -338,15 +337,13 @@ func workersUnknown(ws []*Worker) int {
 
 func (w *Worker) runPath(fn *ssa.Function, item WorkItem) {
 	ex := w.ex
-	p := &Path{w: w, forced: item.trail, pr: &printer{defined: map[*Term]string{}}}
+	p := w.newPath(item.trail)
 	w.path = p
 	w.logging = true
 	w.out = w.out[:0]
 	w.mapOrderFork = false
-	w.pathLog.Reset()
 	w.depth = 0
 	w.solver.lastErr = ""
-	w.solver.send("(push 1)\n")
 	outcome := "ok"
 	var detail string
 	func() {
@@ -398,7 +395,10 @@ func (w *Worker) runPath(fn *ssa.Function, item WorkItem) {
 			}()
 		}
 	}
-	w.solver.send("(pop 1)\n")
+	func() {
+		defer func() { recover() }()
+		p.finish()
+	}()
 	w.rollback()
 	w.logging = false
 	ex.mu.Lock()
@@ -440,7 +440,7 @@ func (w *Worker) runPath(fn *ssa.Function, item WorkItem) {
 		ex.cond.Broadcast()
 	}
 	if st.Paths >= ex.maxPaths || time.Now().After(ex.deadline) {
-		if len(ex.queue) > 0 || ex.active > 1 {
+		if ex.queued() > 0 || ex.active > 1 {
 			st.PathsBudget++
 			st.Errors["budget: path/time budget"]++
 		}
